@@ -701,3 +701,371 @@ Proof.
     destruct r as [|p [|q [|]]]; try discriminate. simpl in Ey. injection Ey as E1 E2.
     apply close_refl. rewrite E1, E2. reflexivity.
 Qed.
+
+(* ------------------------------------------------------------------ lifelines and spans of [layout] *)
+Definition final_ops (inp : input) (xs : list Q) : list shift_op :=
+  snd (label_adjust inp (group_boxes0 inp (routes1 inp xs) (note_boxes inp xs))).
+Definition final_notes (inp : input) (xs : list Q) : list box :=
+  fold_left (fun bs op => map (move_box op) bs) (final_ops inp xs) (note_boxes inp xs).
+Definition final_endy (inp : input) (xs : list Q) : Q :=
+  lifeline_end inp (final_routes inp xs) (final_notes inp xs) (actor_boxes inp xs).
+Definition final_spans (inp : input) (xs : list Q) : list box :=
+  fold_left (fun bs op => map (shift_box op) bs) (final_ops inp xs)
+            (span_boxes0 inp xs (routes0 inp xs) (note_boxes inp xs)).
+
+Definition lifeline_of (inp : input) (xs : list Q) (r : nat) : pt * pt :=
+  let d := GROUP_CONTAINER_PADDING in
+  ((acx inp xs r + d, lifeline_start inp xs r + d), (acx inp xs r + d, final_endy inp xs + d)).
+
+Lemma layout_lifelines inp xs :
+  g_lifelines (layout inp xs) = map (lifeline_of inp xs) (seq 0 (length (i_actors inp))).
+Proof.
+  unfold layout, lifeline_of, final_endy, final_routes, final_notes, final_ops, apply_ops.
+  destruct (label_adjust _ _). cbn [g_lifelines snd]. rewrite map_map. reflexivity.
+Qed.
+
+Lemma layout_spans inp xs : g_spans (layout inp xs) = map (shift_bx GROUP_CONTAINER_PADDING) (final_spans inp xs).
+Proof. unfold layout, final_spans, final_ops. destruct (label_adjust _ _). reflexivity. Qed.
+
+Lemma nth_error_map_seq {A} (f : nat -> A) n k : (k < n)%nat -> nth_error (map f (seq 0 n)) k = Some (f k).
+Proof.
+  intro H. rewrite nth_error_map. rewrite (nth_error_nth' (seq 0 n) 0%nat) by (rewrite seq_length; exact H).
+  rewrite seq_nth by exact H. reflexivity.
+Qed.
+
+Lemma fold_map_comm {A} (f : shift_op -> A -> A) ops (l : list A) :
+  fold_left (fun bs op => map (f op) bs) ops l = map (fun b => fold_left (fun b op => f op b) ops b) l.
+Proof.
+  revert l. induction ops as [|op t IH]; intro l; simpl; [rewrite map_id; reflexivity|].
+  rewrite IH. rewrite map_map. reflexivity.
+Qed.
+
+Lemma shift_box_xw op b : b_x (shift_box op b) = b_x b /\ b_w (shift_box op b) = b_w b.
+Proof.
+  unfold shift_box, move_box, grow_box. destruct op as [t h].
+  destruct (qlt_b (b_y b) t && qlt_b t (b_y b + b_h b))%bool; cbn [b_x b_y b_w b_h];
+    destruct (qlt_b t _); split; reflexivity.
+Qed.
+
+Lemma fold_shift_box_xw ops b :
+  b_x (fold_left (fun b op => shift_box op b) ops b) = b_x b /\ b_w (fold_left (fun b op => shift_box op b) ops b) = b_w b.
+Proof.
+  revert b. induction ops as [|op t IH]; intro b; [split; reflexivity|]. simpl.
+  destruct (IH (shift_box op b)) as [E1 E2]. destruct (shift_box_xw op b) as [E3 E4]. split; congruence.
+Qed.
+
+Lemma span_of_layout inp xs k : (k < length (i_spans inp))%nat ->
+  exists b, nth_error (g_spans (layout inp xs)) k = Some b
+    /\ b_x b = acx inp xs (s_rank (nth k (i_spans inp) span0)) - span_w (nth k (i_spans inp) span0) * (1#2) + GROUP_CONTAINER_PADDING
+    /\ b_w b = span_w (nth k (i_spans inp) span0).
+Proof.
+  intro H. rewrite layout_spans. unfold final_spans. rewrite fold_map_comm. unfold span_boxes0.
+  rewrite !map_map. eexists. split; [apply nth_error_map_seq; exact H|].
+  cbn [shift_bx b_x b_w].
+  match goal with |- context [fold_left _ ?o ?b0] => destruct (fold_shift_box_xw o b0) as [E1 E2] end.
+  rewrite E1, E2. cbn [b_x b_w]. split; reflexivity.
+Qed.
+
+(* ------------------------------------------------------------------ vertical range of the routes *)
+Lemma lifeline_start_le inp xs r : lifeline_start inp xs r <= max_actor_h inp + LIFELINE_LABEL_PAD.
+Proof.
+  unfold lifeline_start, actor_box, actor_y, label_below, LIFELINE_LABEL_PAD. cbn [b_y b_h].
+  destruct (a_ob _ && a_haslabel _)%bool; lra.
+Qed.
+
+Lemma ttb_last ls : all_nonempty ls -> ttb_ys ls ->
+  forall l y, In l ls -> In y l -> exists y', In y' (last ls []) /\ y <= y'.
+Proof.
+  induction ls as [|a t IH]; intros N T l y Il Iy; [destruct Il|].
+  destruct t as [|b t'].
+  - destruct Il as [<-|[]]. exists y. split; [exact Iy|lra].
+  - cbn [ttb_ys] in T. destruct T as [AB T].
+    assert (N' : all_nonempty (b :: t')) by (intros l' I'; apply N; right; exact I').
+    change (last (a :: b :: t') []) with (last (b :: t') []).
+    destruct Il as [<-|Il].
+    + assert (Nb : b <> []) by (apply N; right; left; reflexivity).
+      destruct b as [|y0 b']; [congruence|].
+      assert (L := AB y y0 Iy (or_introl eq_refl)).
+      destruct (IH N' T (y0 :: b') y0 (or_introl eq_refl) (or_introl eq_refl)) as [y' [I' L']].
+      exists y'. split; [exact I'|lra].
+    + apply (IH N' T l y Il Iy).
+Qed.
+
+Lemma max_y_of_ys r : max_y_of r = fold_left qmax (ys r) 0.
+Proof.
+  unfold max_y_of, ys. generalize 0 as a. induction r as [|p t IH]; intro a; [reflexivity|]. simpl. apply IH.
+Qed.
+
+Lemma fold_qmax_boxes_ge (l : list box) a : a <= fold_left (fun acc b => qmax acc (b_y b + b_h b)) l a.
+Proof.
+  revert a. induction l as [|x t IH]; intro a; simpl; [lra|].
+  eapply Qle_trans; [apply (qmax_l a (b_y x + b_h x))|apply IH].
+Qed.
+
+Lemma route_below_end inp xs : wf_b inp = true ->
+  forall l y, In l (ysl (final_routes inp xs)) -> In y l -> y + YSTEP <= final_endy inp xs.
+Proof.
+  intros W l y Il Iy. destruct (final_routes_props inp xs W) as [N [T _]].
+  destruct (ttb_last _ N T l y Il Iy) as [y' [I' L']].
+  unfold final_endy, lifeline_end.
+  set (rts := final_routes inp xs) in *.
+  assert (Ne : rts <> []) by (destruct rts; [destruct Il|discriminate]).
+  destruct rts as [|r0 rt] eqn:E; [congruence|]. rewrite <- E in *.
+  assert (EL : last (ysl rts) [] = ys (last rts [])).
+  { unfold ysl. change (@nil Q) with (ys []) at 1. apply last_map. }
+  rewrite EL in I'.
+  assert (M : y' <= max_y_of (last rts [])) by (rewrite max_y_of_ys; apply fold_qmax_ge_in; exact I').
+  eapply Qle_trans; [|apply Qplus_le_l; apply fold_qmax_boxes_ge].
+  eapply Qle_trans; [|apply Qplus_le_l; apply fold_qmax_boxes_ge]. lra.
+Qed.
+
+(* ------------------------------------------------------------------ endpoints on lifelines / spans *)
+Lemma span_ref_ok_some inp rank k : span_ref_ok inp rank (Some k) = true ->
+  (k < length (i_spans inp))%nat /\ s_rank (nth k (i_spans inp) span0) = rank.
+Proof.
+  unfold span_ref_ok. intro H. apply andb_prop in H. destruct H as [H1 H2].
+  apply Nat.ltb_lt in H1. apply Nat.eqb_eq in H2. tauto.
+Qed.
+
+Lemma close_or_span inp xs rank k (sh x : Q) b :
+  s_rank (nth k (i_spans inp) span0) = rank ->
+  b_x b = acx inp xs rank - span_w (nth k (i_spans inp) span0) * (1#2) + GROUP_CONTAINER_PADDING ->
+  b_w b = span_w (nth k (i_spans inp) span0) ->
+  (sh = span_w (nth k (i_spans inp) span0) * (1#2) \/ sh = - (span_w (nth k (i_spans inp) span0) * (1#2))) ->
+  x == acx inp xs rank + sh + GROUP_CONTAINER_PADDING ->
+  on_span_x_b b (x, 0) = true.
+Proof.
+  intros _ Ex Ew Hs Hx. unfold on_span_x_b. cbn [fst]. apply orb_true_iff.
+  destruct Hs as [-> | ->]; [right|left]; apply close_refl; rewrite Hx, Ex, ?Ew; ring.
+Qed.
+
+Lemma endpoint_ok inp xs rank sp (sh : Q) (p : pt) :
+  wf_b inp = true -> (rank < length (i_actors inp))%nat -> span_ref_ok inp rank sp = true ->
+  (match sp with
+   | None => sh = 0
+   | Some k => sh = span_w (nth k (i_spans inp) span0) * (1#2) \/ sh = - (span_w (nth k (i_spans inp) span0) * (1#2))
+   end) ->
+  fst p == acx inp xs rank + sh + GROUP_CONTAINER_PADDING ->
+  max_actor_h inp + YSTEP + GROUP_CONTAINER_PADDING <= snd p ->
+  snd p + YSTEP <= final_endy inp xs + GROUP_CONTAINER_PADDING ->
+  endpoint_ok_b (layout inp xs) rank sp p = true.
+Proof.
+  intros W Hr Hsp Hsh Hx Hlo Hhi. unfold endpoint_ok_b.
+  rewrite layout_lifelines. rewrite nth_error_map_seq by exact Hr.
+  assert (S := lifeline_start_le inp xs rank).
+  assert (Ylo : qlt_b (snd (fst (lifeline_of inp xs rank))) (snd p) = true).
+  { apply qlt_b_true. unfold lifeline_of. cbn [fst snd].
+    unfold YSTEP, MIN_MESSAGE_DISTANCE, VERTICAL_PAD, LIFELINE_LABEL_PAD in *. lra. }
+  assert (Yhi : qlt_b (snd p) (snd (snd (lifeline_of inp xs rank))) = true).
+  { apply qlt_b_true. unfold lifeline_of. cbn [fst snd].
+    unfold YSTEP, MIN_MESSAGE_DISTANCE, VERTICAL_PAD in *. lra. }
+  destruct sp as [k|].
+  - destruct (span_ref_ok_some inp rank k Hsp) as [Hk Hrank].
+    destruct (span_of_layout inp xs k Hk) as [b [Eb [Ex Ew]]]. rewrite Eb. rewrite Hrank in Ex.
+    rewrite Ylo, Yhi. rewrite !andb_true_r. apply andb_true_intro. split.
+    + assert (O := close_or_span inp xs rank k sh (fst p) b Hrank Ex Ew Hsh Hx).
+      unfold on_span_x_b in *. cbn [fst] in O. exact O.
+    + apply close_refl. unfold lifeline_of. cbn [fst]. rewrite Ex, Ew. ring.
+  - unfold on_lifeline_b. rewrite Ylo, Yhi. rewrite !andb_true_r. apply andb_true_intro. split.
+    + apply close_refl. unfold lifeline_of. cbn [fst]. rewrite Hx, Hsh. ring.
+    + apply close_refl. unfold lifeline_of. cbn [fst snd]. reflexivity.
+Qed.
+
+Lemma src_shift_cases inp m :
+  match m_srcspan m with
+  | None => src_shift inp m = 0
+  | Some k => src_shift inp m = span_w (nth k (i_spans inp) span0) * (1#2)
+              \/ src_shift inp m = - (span_w (nth k (i_spans inp) span0) * (1#2))
+  end.
+Proof. unfold src_shift. destruct (m_srcspan m); [|reflexivity]. destruct (Nat.leb _ _); auto. Qed.
+Lemma dst_shift_cases inp m :
+  match m_dstspan m with
+  | None => dst_shift inp m = 0
+  | Some k => dst_shift inp m = span_w (nth k (i_spans inp) span0) * (1#2)
+              \/ dst_shift inp m = - (span_w (nth k (i_spans inp) span0) * (1#2))
+  end.
+Proof. unfold dst_shift. destruct (m_dstspan m); [|reflexivity]. destruct (Nat.ltb _ _); auto. Qed.
+
+Lemma msgs_endpoints inp xs : wf_b inp = true -> msgs_endpoints_b inp (layout inp xs) = true.
+Proof.
+  intro W. unfold msgs_endpoints_b. apply forallb_forall. intros [m r] I. cbn [fst snd].
+  destruct (Forall2_in_combine _ _ _ _ _ (final_inv inp xs) I) as [L [H1 [H2 _]]].
+  assert (Im : In m (i_msgs inp)) by (eapply in_combine_l; eauto).
+  assert (Wm := wf_msgs inp W m Im). unfold msg_wf_b in Wm.
+  repeat (apply andb_prop in Wm; destruct Wm as [Wm ?]).
+  rename H into Wdsp, H0 into Wssp, H3 into Wdst, H4 into Wsrc.
+  apply Nat.ltb_lt in Wdst. apply Nat.ltb_lt in Wsrc.
+  (* the y range of this route *)
+  assert (Ir : In r (g_msgs (layout inp xs))) by (eapply in_combine_r; eauto).
+  rewrite layout_msgs in Ir. apply in_map_iff in Ir. destruct Ir as [r0 [Er Ir0]].
+  destruct (final_routes_props inp xs W) as [_ [_ LB]].
+  assert (Y : forall p, In p r -> max_actor_h inp + YSTEP + GROUP_CONTAINER_PADDING <= snd p
+                                  /\ snd p + YSTEP <= final_endy inp xs + GROUP_CONTAINER_PADDING).
+  { intros p Ip. rewrite <- Er in Ip. apply in_map_iff in Ip. destruct Ip as [p0 [<- Ip0]].
+    assert (I0 : In (ys r0) (ysl (final_routes inp xs))) by (unfold ysl; apply in_map; exact Ir0).
+    assert (J0 : In (snd p0) (ys r0)) by (unfold ys; apply in_map; exact Ip0).
+    assert (A := LB _ _ I0 J0). assert (B := route_below_end inp xs W _ _ I0 J0).
+    cbn [shift_pt snd]. lra. }
+  unfold msg_endpoints_b. destruct r as [|p t]; [simpl in L; lia|].
+  assert (Nr : p :: t <> []) by discriminate.
+  apply andb_true_intro. split.
+  - destruct (Y p (or_introl eq_refl)) as [Ya Yb].
+    apply (endpoint_ok inp xs (m_src m) (m_srcspan m) (src_shift inp m) p W Wsrc Wssp (src_shift_cases inp m)); auto.
+  - destruct (Y (last (p :: t) (0, 0)) (last_in _ _ Nr)) as [Ya Yb].
+    apply (endpoint_ok inp xs (m_dst m) (m_dstspan m) (dst_shift inp m) _ W Wdst Wdsp (dst_shift_cases inp m)); auto.
+Qed.
+
+(* ------------------------------------------------------------------ lifelines *)
+Lemma combine_map2 {A B C} (f : A -> B) (g : A -> C) l : combine (map f l) (map g l) = map (fun x => (f x, g x)) l.
+Proof. induction l as [|x t IH]; [reflexivity|]. simpl. rewrite IH. reflexivity. Qed.
+
+Lemma lifelines_ok inp xs : wf_b inp = true -> lifelines_b inp (layout inp xs) = true.
+Proof.
+  intro W. unfold lifelines_b. rewrite layout_lifelines, layout_actors. unfold actor_boxes.
+  rewrite !map_length, seq_length. rewrite Nat.eqb_refl. cbn [andb].
+  rewrite map_map. rewrite combine_map2.
+  apply forallb_forall. intros [b l] I. apply in_map_iff in I. destruct I as [r [Er Ir]].
+  apply in_seq in Ir. injection Er as <- <-.
+  unfold lifeline_of, shift_bx, acx, actor_box. cbn [b_x b_y b_w b_h fst snd].
+  apply andb_true_intro. split; [apply andb_true_intro; split|].
+  - apply close_refl. ring.
+  - apply close_refl. ring.
+  - apply Qle_bool_iff. unfold lifeline_start, actor_box. cbn [b_y b_h].
+    assert (In (nth r (i_actors inp) actor0) (i_actors inp)) by (apply nth_In; lia).
+    assert (H0 := wf_actors inp W _ H). apply iz_nonneg in H0.
+    unfold tol, LIFELINE_LABEL_PAD. destruct (a_ob _ && a_haslabel _)%bool; lra.
+Qed.
+
+(* ------------------------------------------------------------------ math.Round *)
+Lemma go_round_close v : go_round v - v <= 1#2 /\ v - go_round v <= 1#2.
+Proof.
+  unfold go_round, iz. destruct (Qle_bool 0 v) eqn:E.
+  - assert (A := Qfloor_le (v + (1#2))). assert (B := Qlt_floor (v + (1#2))).
+    rewrite inject_Z_plus in B. change (inject_Z 1) with 1 in B. lra.
+  - assert (A := Qfloor_le (- v + (1#2))). assert (B := Qlt_floor (- v + (1#2))).
+    rewrite inject_Z_plus in B. change (inject_Z 1) with 1 in B. lra.
+Qed.
+
+Lemma nth_map_seq (f : nat -> Q) n r : (r < n)%nat -> nth r (map f (seq 0 n)) 0 = f r.
+Proof.
+  intro H. rewrite (nth_indep _ 0 (f 0%nat)) by (rewrite map_length, seq_length; exact H).
+  rewrite map_nth. rewrite seq_nth by exact H. reflexivity.
+Qed.
+
+(* the exact Go rounding satisfies the hypothesis of the theorems *)
+Lemma rounded_xs_ok inp : rounding_ok inp (rounded_xs inp).
+Proof.
+  unfold rounding_ok, rounded_xs. rewrite map_length, seq_length. split; [reflexivity|].
+  intros r H. rewrite nth_map_seq by exact H. destruct (go_round_close (unrounded_x inp r)). lra.
+Qed.
+
+(* what Check.v verifies about the implementation's positions implies the hypothesis *)
+Lemma rounding_b_ok inp xs : rounding_b inp xs = true -> rounding_ok inp xs.
+Proof.
+  unfold rounding_b, rounding_ok. intro H. apply andb_prop in H. destruct H as [L F].
+  apply Nat.eqb_eq in L. split; [exact L|]. intros r Hr.
+  rewrite forallb_forall in F. specialize (F r). assert (I : In r (seq 0 (length xs))) by (apply in_seq; lia).
+  specialize (F I). cbv zeta in F. apply andb_prop in F. destruct F as [F F2]. apply andb_prop in F. destruct F as [_ F1].
+  apply Qle_bool_iff in F1. apply Qle_bool_iff in F2. unfold tol in *. lra.
+Qed.
+
+(* ------------------------------------------------------------------ declaration order *)
+Lemma increasing_all a l : increasing (a :: l) = true -> forall b, In b l -> a < b.
+Proof.
+  revert a. induction l as [|x t IH]; intros a H b I; [destruct I|].
+  cbn [increasing] in H. apply andb_prop in H. destruct H as [H1 H2]. apply qlt_b_true in H1.
+  destruct I as [->|I]; [exact H1|]. specialize (IH x H2 b I). lra.
+Qed.
+Lemma increasing_tail a l : increasing (a :: l) = true -> increasing l = true.
+Proof. destruct l; [reflexivity|]. cbn [increasing]. intro H. apply andb_prop in H. tauto. Qed.
+
+Lemma ltr_chain (l : list box) : increasing (map b_x l) = true -> chain_all left_of l.
+Proof.
+  induction l as [|a t IH]; intro H; [exact I|]. cbn [chain_all]. split.
+  - apply Forall_forall. intros b Ib. unfold left_of. apply qlt_b_true.
+    apply (increasing_all _ _ H). apply in_map. exact Ib.
+  - apply IH. eapply increasing_tail. exact H.
+Qed.
+
+Lemma fold_qmin_le_init (l : list pt) a : fold_left (fun acc p => qmin acc (snd p)) l a <= a.
+Proof.
+  revert a. induction l as [|p t IH]; intro a; simpl; [lra|].
+  eapply Qle_trans; [apply IH|apply qmin_l].
+Qed.
+Lemma fold_qmax_ge_init' (l : list pt) a : a <= fold_left (fun acc p => qmax acc (snd p)) l a.
+Proof.
+  revert a. induction l as [|p t IH]; intro a; simpl; [lra|].
+  eapply Qle_trans; [apply (qmax_l a (snd p))|apply IH].
+Qed.
+Lemma min_le_max r : min_y_of r <= max_y_of' r.
+Proof.
+  unfold min_y_of, max_y_of'. eapply Qle_trans; [apply fold_qmin_le_init|apply fold_qmax_ge_init'].
+Qed.
+
+Lemma ttb_all a l : msgs_ttb_b (a :: l) = true -> forall c, In c l -> above a c = true.
+Proof.
+  revert a. induction l as [|b t IH]; intros a H c I; [destruct I|].
+  cbn [msgs_ttb_b] in H. apply andb_prop in H. destruct H as [H1 H2].
+  destruct I as [->|I]; [exact H1|].
+  specialize (IH b H2 c I). unfold above in *. apply qlt_b_true in H1. apply qlt_b_true in IH.
+  apply qlt_b_true. assert (M := min_le_max b). lra.
+Qed.
+Lemma ttb_tail a l : msgs_ttb_b (a :: l) = true -> msgs_ttb_b l = true.
+Proof. destruct l; [reflexivity|]. cbn [msgs_ttb_b]. intro H. apply andb_prop in H. tauto. Qed.
+
+Lemma ttb_chain (rs : list (list pt)) : msgs_ttb_b rs = true -> chain_all above rs.
+Proof.
+  induction rs as [|a t IH]; intro H; [exact I|]. cbn [chain_all]. split.
+  - apply Forall_forall. apply ttb_all. exact H.
+  - apply IH. eapply ttb_tail. exact H.
+Qed.
+
+Lemma incr_nat_cons a l : (forall b, In b l -> (a < b)%nat) -> incr_nat l = true -> incr_nat (a :: l) = true.
+Proof.
+  intros H I. destruct l as [|b t]; [reflexivity|]. cbn [incr_nat]. apply andb_true_intro. split; [|exact I].
+  apply Nat.ltb_lt. apply H. left. reflexivity.
+Qed.
+Lemma incr_nat_filter f l : incr_nat l = true -> incr_nat (filter f l) = true.
+Proof.
+  induction l as [|a t IH]; intro H; [reflexivity|]. simpl.
+  assert (T := incr_nat_tail _ _ H). destruct (f a); [|auto].
+  apply incr_nat_cons; [|auto]. intros b I. apply filter_In in I. destruct I as [I _].
+  apply (incr_nat_all_lt _ _ H b I).
+Qed.
+
+Lemma layout_actors_length inp xs : length (g_actors (layout inp xs)) = length (i_actors inp).
+Proof. rewrite layout_actors. unfold actor_boxes. rewrite !map_length, seq_length. reflexivity. Qed.
+
+Lemma layout_msgs_length inp xs : length (g_msgs (layout inp xs)) = length (i_msgs inp).
+Proof. eapply Forall2_length'. apply final_inv. Qed.
+
+Section DeclarationOrder.
+  Variables (inp : input) (xs : list Q).
+  Variables (objs_in : list (Z * nat * bool)) (objs_out : list nat).
+  Variables (msgs_in : list (Z * nat)) (msgs_out : list nat).
+
+  Lemma actors_decl_order :
+    rounding_ok inp xs ->
+    sorted_perm_b (obj_keys objs_in) objs_out = true -> stable_b (obj_keys objs_in) objs_out = true ->
+    text_order_b (obj_keys objs_in) = true ->
+    length (actor_ids objs_in objs_out) = length (i_actors inp) ->
+    pairs_ok left_of (combine (actor_ids objs_in objs_out) (g_actors (layout inp xs))) = true.
+  Proof.
+    intros R S St T L. apply pairs_ok_of_incr.
+    - rewrite layout_actors_length. exact L.
+    - unfold actor_ids. apply incr_nat_filter. eapply order_kept; eauto.
+    - apply ltr_chain. apply (actors_ltr inp xs R).
+  Qed.
+
+  Lemma msgs_decl_order :
+    wf_b inp = true ->
+    sorted_perm_b msgs_in msgs_out = true -> stable_b msgs_in msgs_out = true -> text_order_b msgs_in = true ->
+    length msgs_out = length (i_msgs inp) ->
+    pairs_ok above (combine msgs_out (g_msgs (layout inp xs))) = true.
+  Proof.
+    intros W S St T L. apply pairs_ok_of_incr.
+    - rewrite layout_msgs_length. exact L.
+    - eapply order_kept; eauto.
+    - apply ttb_chain. apply (msgs_ttb inp xs W).
+  Qed.
+End DeclarationOrder.
